@@ -510,3 +510,55 @@ func exactSizeUnit(format string) func(c *Ctx) {
 		}
 	}
 }
+
+// "tiny" units (C01–C05): EVERY string of one and two (thorough: three)
+// punctuation bytes as the whole of every text field — "--", "+", "@@", "*",
+// "=", "//", "..", "#!", "''" … Tools leave such tokens in files (the group
+// separator of grep, placeholders, comment leaders of other formats), and a
+// two-base read whose qualities are "--" is a plain record. A reader that
+// gives one of them a meaning of its own drops or splits a valid record.
+const tinyAlphabet = "-+@#>;!*.=~:,'\"()[]/\\|_%&^$?< "
+
+func tinyUnit(format string) func(c *Ctx) {
+	return func(c *Ctx) {
+		cd := codecByName(format)
+		maxLen := c.N(2, 3)
+		var vals []string
+		var gen func(prefix string)
+		gen = func(prefix string) {
+			if len(prefix) > 0 {
+				vals = append(vals, prefix)
+			}
+			if len(prefix) == maxLen {
+				return
+			}
+			for i := 0; i < len(tinyAlphabet); i++ {
+				gen(prefix + tinyAlphabet[i:i+1])
+			}
+		}
+		gen("")
+		idx := int64(0)
+		for field := 0; field < textFieldCount[format]; field++ {
+			for vi := 0; vi < len(vals); vi += 64 {
+				c.Case(idx, func(k *K) {
+					for _, v := range vals[vi:min(vi+64, len(vals))] {
+						if format == "fasta" && field == 1 && strings.Contains(v, ">") {
+							continue
+						}
+						if strings.TrimSpace(v) != v && format != "fasta" && format != "fastq" {
+							continue // blanks at the edges of a field: the `edges` units
+						}
+						fieldRoundTrip(k, cd, format, field, v, "tiny-token", "a whole field of one to three punctuation bytes")
+						if k.Failed() {
+							return
+						}
+						k.Count("tiny_tokens", 1)
+						k.Evals(1)
+					}
+				})
+				idx++
+			}
+		}
+		c.Exhaustive(fmt.Sprintf("tiny: every string of 1..%d bytes over %q as each of the %d text fields of %s", maxLen, tinyAlphabet, textFieldCount[format], format))
+	}
+}
